@@ -275,7 +275,7 @@ func (wr *Writer) appendSEN(data any, depth int) {
 }
 
 func appendDefault(wr *Writer, data any, depth int) {
-	if !wr.NoReflect {
+	if !wr.NoReflect || 0 < len(wr.CreateKey) {
 		rv := reflect.ValueOf(data)
 		kind := rv.Kind()
 		if kind == reflect.Ptr {
